@@ -91,12 +91,12 @@ PROPS = {
              "bound": "block comment with 0..=3 inner line breaks x 0..=2 line breaks behind it x 3 positions (file head, in front of /begin MODULE, in front of /end MODULE) x line ends {LF, CRLF, CR} (108 documents)", "timeout": 300, "extra_modules": ["tokenizer"], "must_cover": ["comment_layout_end"]},
         ] + [
             {"engine": "E2", "module": "lib", "harness": "h_ifdata_soup_%d" % n, "functions": ["load_from_string", "ifdata::parse_ifdata", "ifdata::parse_unknown_ifdata_start", "ifdata::parse_unknown_ifdata", "ifdata::parse_unknown_taggedstruct", "parser::get_string", "tokenizer::handle_a2ml"],
-             "bound": "uninterpreted IF_DATA holding every %d-lexeme soup over {/begin B, /end B, ident, hex number, string, empty string, block comment, line comment, embedded A2ML section (raw text '\"' / 'x y')}, closed or cut off, strict and non-strict: loading returns, accepted text loads again" % n,
+             "bound": "uninterpreted IF_DATA holding every %d-lexeme soup over {/begin B, /end B, ident, hex number, string, empty string, block comment, line comment, embedded A2ML section (raw text '\"' / 'x y'), /include without a name}, closed or cut off, strict and non-strict: loading returns, accepted text loads again" % n,
              "timeout": 300, "extra_modules": ["tokenizer"], "max_steps": 3000000, "quick": n <= 2, "msg_prefix": "C03"}
             for n in (1, 2, 3)
         ] + [
             {"engine": "E2", "module": "lib", "harness": "h_fragment_soup_%d" % n, "functions": ["load_fragment", "tokenizer::tokenize", "specification::Module::parse", "a2ml::parse_a2ml", "parser::ParserState::*"],
-             "bound": "entry point load_fragment: every %d-lexeme soup over {MEASUREMENT, /begin, /end, /end MODULE, keyword, number, string, comments, /include of a missing file, A2ML block, IF_DATA block} x built-in A2ML specification {none, valid, truncated}" % n,
+             "bound": "entry point load_fragment: every %d-lexeme soup over {MEASUREMENT, /begin, /end, /end MODULE, keyword, number, string, comments, /include of a missing file, /include without a name, A2ML block, IF_DATA block} x built-in A2ML specification {none, valid, truncated}" % n,
              "timeout": 400, "extra_modules": ["tokenizer"], "max_steps": 3000000, "quick": n <= 2}
             for n in (1, 2, 3)
         ],
@@ -397,6 +397,8 @@ PROPS = {
              "bound": "36 splittings x {quoted, unquoted} x {with, without a further include behind the nested one}", "timeout": 400, "extra_modules": ["tokenizer"], "validate": 36},
             {"engine": "E2", "module": "lib", "harness": "h_include_missing", "functions": ["load", "tokenizer::tokenize", "loader::load"],
              "bound": "missing include file, directly or nested, quoted or unquoted", "timeout": 200, "extra_modules": ["tokenizer"]},
+            {"engine": "E2", "module": "lib", "harness": "h_include_in_ifdata", "functions": ["load", "tokenizer::tokenize (include handling)", "ifdata::parse_ifdata", "a2ml::GenericIfData::merge_includes", "a2ml::GenericIfData::write", "A2lFile::merge_includes"],
+             "bound": "an /include inside an IF_DATA block: with / without A2ML definition x quoted / unquoted x which of three content parts (keyword item, block item, repeated items) comes from the include file (12 file systems)", "timeout": 400, "extra_modules": ["tokenizer"], "must_cover": ["include_in_ifdata_end"], "validate": 12},
             {"engine": "E2", "module": "lib", "harness": "h_include_edge_cases", "functions": ["load", "tokenizer::tokenize (include handling)", "A2lFile::write_to_string", "A2lFile::merge_includes"],
              "bound": "include file {empty, only a comment, only white space, two elements, element + trailing comment} x directive {first, middle, last item of MODULE} x quoted / unquoted (30 file systems)", "timeout": 400, "extra_modules": ["tokenizer"], "must_cover": ["include_edge_cases_end"], "validate": 30},
             {"engine": "E2", "module": "lib", "harness": "h_include_paths", "functions": ["load", "loader::make_include_filename", "loader::load", "tokenizer::tokenize (include handling)", "a2ml::tokenize_include", "A2lFile::write_to_string", "A2lFile::merge_includes"],
